@@ -60,8 +60,24 @@ def _under(k, root):
     return k == root or k.startswith(root + '/') or root == ''
 
 
-def _trash_internal(k):
-    return base(k) in ('info', 'files')
+import re as _re
+_TRASH_DIR_NAME = _re.compile(r'^(\.?Trash(-\d+)?|\d+|.*[tT]rash.*|T|\.Trash-inside)$')
+
+
+def _trash_internal(k, sig=None):
+    """k is the info/ or files/ directory of a trash directory (not a user's
+    directory that happens to be called 'files'): its sibling exists, or its
+    parent is named like a trash directory"""
+    b = base(k)
+    if b not in ('info', 'files'):
+        return False
+    par = parent(k)
+    if _TRASH_DIR_NAME.match(base(par) or ''):
+        return True
+    if sig is not None:
+        sib = (par + '/' if par else '') + ('files' if b == 'info' else 'info')
+        return sib in sig and sig[sib][0] == 'd'
+    return True
 
 
 def norm_sig(sig):
@@ -69,7 +85,7 @@ def norm_sig(sig):
     blanked: a .trashinfo created and withdrawn again legitimately bumps it"""
     out = {}
     for k, e in sig.items():
-        if e[0] == 'd' and _trash_internal(k):
+        if e[0] == 'd' and _trash_internal(k, sig):
             e = e[:6] + (None,)
         out[k] = e
     return out
